@@ -461,9 +461,16 @@ SETTER_NORMALISERS = {
 }
 
 
+def front_end_classes(prog):
+    return tuple(sorted(set(f.cls for f in prog.funcs.values() if f.cls and f.cls.startswith('nix::') and '<' not in f.cls and
+                            not any(f.cls.startswith(x) for x in ('nix::hdf5', 'nix::base', 'nix::util', 'nix::valid')))))
+
+
 def run_setter_verbatim(prog, rep, classes=('nix::Property',), floor=2):
+    if classes == 'all':
+        classes = front_end_classes(prog)
     """a front-end setter hands the caller's value itself to the backend setter of the same name"""
-    rule = rep.rule('R-SETVERB', 'front-end setters of %s pass the value they are given to the backend setter of the same name verbatim (or through the one tabled normaliser)' % ', '.join(classes), floor=floor)
+    rule = rep.rule('R-SETVERB', 'front-end setters of %s pass the value they are given to the backend setter of the same name verbatim (or through the one tabled normaliser)' % (', '.join(classes) if len(classes) < 6 else '%d front-end classes' % len(classes)), floor=floor)
     sem = Sem(prog)
     n = 0
     for f in sorted(prog.funcs.values(), key=lambda f: (f.file, f.line)):
@@ -479,6 +486,8 @@ def run_setter_verbatim(prog, rep, classes=('nix::Property',), floor=2):
                 fl = fl or Flow(sem, f)
                 org = fl.origins(unwrap(a))
                 calls = sorted(set(o[1] for o in org if o[0] == 'call'))
+                if set(calls) & {'element_data_type', 'data', 'shape'}:
+                    continue        # Hydra adapter around the caller's container (buffer pointer, element type, shape): R-BUF / R-DISPATCH
                 other = sorted(set(o[0] for o in org if o[0] not in ('call', 'param', 'const', 'lit')))
                 pnames = [o[1] for o in org if o[0] == 'param']
                 ptypes = [p['type'] for p in f.params if p['name'] in pnames]
@@ -495,4 +504,44 @@ def run_setter_verbatim(prog, rep, classes=('nix::Property',), floor=2):
                     rule.ok(key, rep.where(c), f.label(), 'verbatim')
     if n < floor:
         raise AnalysisBroken('R-SETVERB: only %d setter arguments found' % n)
+    return rule
+
+
+# encoders between a setter's parameter and the stored attribute; each has its own codec rule
+STORE_ENCODERS = {
+    'timeToStr': 'time stamps are stored as ISO text (R-TIMECODEC)',
+    'linkTypeToString': 'LinkType is stored by name (R-CODEC-LINK)',
+    'dimensionTypeToStr': 'DimensionType is stored by name (R-CODEC-DIM)',
+    'size': 'number of columns sizes the units vector in DataFrameHDF5::createData',
+}
+
+
+def run_store_verbatim(prog, rep, floor=25):
+    """backend setters store the value they are given: parameter -> setAttr/setData with nothing but a tabled encoder between"""
+    rule = rep.rule('R-STOREVERB', 'a backend function that stores a value derived from one of its parameters stores the parameter itself, or its image under a tabled encoder (time stamp, enum name)', floor=floor)
+    sem = Sem(prog)
+    n = 0
+    for f in sorted(prog.funcs.values(), key=lambda f: (f.file, f.line)):
+        if f.body is None or not (f.cls or '').startswith('nix::hdf5::') or not f.params:
+            continue
+        fl = None
+        k = 0
+        for c in f.calls():
+            if c.callee.get('name') not in ('setAttr', 'setData') or len(real_args(c)) < 2:
+                continue
+            fl = fl or Flow(sem, f)
+            org = fl.origins(real_args(c)[1])
+            if not any(o[0] == 'param' for o in org):
+                continue
+            n += 1
+            k += 1
+            calls = sorted(set(o[1] for o in org if o[0] == 'call'))
+            bad = [x for x in calls if x not in STORE_ENCODERS]
+            key = '%s%s|store%d' % (f.q, f.sig, k)
+            if bad:
+                rule.bad(key, rep.where(c), f.label(), 'the stored value is the parameter passed through %s: the getter returns something else than what was set for some values' % ', '.join(bad))
+            else:
+                rule.ok(key, rep.where(c), f.label(), 'stored verbatim' if not calls else 'stored through tabled encoder %s' % ', '.join(calls))
+    if n < floor:
+        raise AnalysisBroken('R-STOREVERB: only %d stores found' % n)
     return rule
